@@ -290,9 +290,10 @@ def judge_spec(sp, res=None, o_mod=None):
             return [("decorate", mode, f"@classes.slotted(dict={sp['dict']}, weakref={sp['weakref']}) on the dataclass raises {out.excname}: {msg}")], False
         try:
             V = SM.judge(o_mod.C, s_mod.C, info_of(sp), o_mod=o_mod, s_mod=s_mod, full=True, count=count)
-        except SM.OriginalFails:
+        except SM.OriginalFails as e:
             if has_slotted_ancestor(sp):
-                return None, True  # the ORIGINAL child of a slotted base misbehaves: base fixture broken (covered by base=none)
+                # the ORIGINAL (plain) child misbehaves, and the only library code in its ancestry is the slotted base
+                return [("base", "plain-child-of-slotted-base-misbehaves", f"a plain dataclass deriving from the slotted base misbehaves: {str(e)[:160]}")], True
             raise
         if not STRICT_INHERITED_SLOTS:
             V = [v for v in V if v[:2] != ("slots", "extra:inherited-field")]
@@ -474,6 +475,7 @@ ALPHABET = [
     ("F", mkspec("nd", (True, True, False, False), "none", "none", False, True), "CF", "tlg_c19h_f", False),
     ("P", mkspec("nf", _D, "none", "none", True, False), "CP", "tlg_c19h_p", False),
     ("W", mkspec("d", _D, "unslotted", "none", False, True), "CW", "tlg_c19h_w", False),
+    ("S", mkspec("d", _D, "slotted", "none", False, True), "CS", "tlg_c19h_s", False),  # its base provides slots, __weakref__
 ]
 ENV = [
     ("N1", "class C:\n    x = 1\n", "C", SHARED),  # same repr as A and B
@@ -504,17 +506,24 @@ def _hist_world():
     return _HW
 
 
-def _decorate(cls, sp, bare):
+def _decorate(cls, sp, bare, decos=None):
+    """decos: {(dict, weakref): configured decorator object} shared by the steps of one history (a decorator object that is
+    configured once and applied to several classes); None = a new decorator object per decoration"""
     if bare:
         return classes.slotted(cls)
-    return classes.slotted(dict=sp["dict"], weakref=sp["weakref"])(cls)
+    if decos is None:
+        return classes.slotted(dict=sp["dict"], weakref=sp["weakref"])(cls)
+    k = (sp["dict"], sp["weakref"])
+    if k not in decos:
+        decos[k] = classes.slotted(dict=sp["dict"], weakref=sp["weakref"])
+    return decos[k](cls)
 
 
-def _step(w, mid, judge=False, count=None):
+def _step(w, mid, judge=False, count=None, decos=None):
     cls, sp, bare, cname = w[mid]
     if sp is None:
         return call(classes.slotted, cls), []
-    out = call(_decorate, cls, sp, bare)
+    out = call(_decorate, cls, sp, bare, decos)
     V = []
     if judge and out.ok:
         V = SM.judge(cls, out.val, info_of(sp, cname), full=False, count=count)
@@ -523,15 +532,16 @@ def _step(w, mid, judge=False, count=None):
     return out, V
 
 
-def _play(hist, res=None):
+def _play(hist, res=None, reuse=False):
     """Replay one history from a cold state (nothing is cleared between the steps) and judge its last step.
     -> (out of the last step, [(kind, sig-or-(clause, mode), what)], guard after)   kind: 'cold' | 'hist'"""
     w, coldj = _hist_world()
     cold.clear_all()
     prov = {}  # guard key -> (move id, step succeeded) of the step that left it behind
+    decos = {} if reuse else None
     for mid in hist[:-1]:
         before = frozenset(classes._stack)
-        out, _ = _step(w, mid)
+        out, _ = _step(w, mid, decos=decos)
         for k in classes._stack:
             if k not in before:
                 prov[k] = (mid, out.ok)
@@ -547,13 +557,13 @@ def _play(hist, res=None):
             res.hit("clause:hist-" + clause)
 
     before = frozenset(classes._stack)
-    out, V = _step(w, mid, judge=True, count=count)
+    out, V = _step(w, mid, judge=True, count=count, decos=decos)
     after = frozenset(classes._stack)
     found = []
     if sp is None:
         return out, found, after
     c_ok, c_exc, c_set = coldj[mid]
-    hs = ">".join(hist)
+    hs = ">".join(hist) + (" (one decorator object per flag combination, reused)" if reuse else "")
     if not out.ok:
         msg = str(out.exc)[:120]
         if not c_ok:
@@ -584,7 +594,7 @@ def _play(hist, res=None):
     return out, found, after
 
 
-def _shrink(hist, sig):
+def _shrink(hist, sig, reuse=False):
     """drop earlier steps while the last step still lands in the same history cell"""
     cur = tuple(hist)
     changed = True
@@ -592,28 +602,28 @@ def _shrink(hist, sig):
         changed = False
         for i in range(len(cur) - 1):
             cand = cur[:i] + cur[i + 1 :]
-            _, found, _ = _play(cand)
+            _, found, _ = _play(cand, reuse=reuse)
             hit = [f for f in found if f[0] == "hist" and f[1] == sig]
             if hit:
                 cur, changed = cand, True
                 break
-    _, found, _ = _play(cur)
+    _, found, _ = _play(cur, reuse=reuse)
     what = next((f[2] for f in found if f[0] == "hist" and f[1] == sig), None)
     return cur, what
 
 
-def run_history(hist, res):
+def run_history(hist, res, reuse=False):
     w, _ = _hist_world()
     res.programs += 1
-    res.hit(f"hist:len={len(hist)}")
-    out, found, after = _play(hist, res)
+    res.hit(f"hist:len={len(hist)}" + (":reused-decorator" if reuse else ""))
+    out, found, after = _play(hist, res, reuse)
     mid = hist[-1]
     sp = w[mid][1]
     res.states.add(h64("C19-guard", sorted(after)))
     res.hit(f"hist:guard-size-after={len(after)}")
     res.hit("hist:last=" + mid + (":ok" if out.ok else ":raises"))
     res.evals += 1
-    key = h64("H", ",".join(hist), out.ok, out.excname, sorted(str(f[1]) for f in found), sorted(after))
+    key = h64("H", reuse, ",".join(hist), out.ok, out.excname, sorted(str(f[1]) for f in found), sorted(after))
     res.outcomes.add(key)
     if out.ok:
         res.nontrivial.add(key)
@@ -630,8 +640,12 @@ def run_history(hist, res):
         if kind != "hist" or sig in done:
             continue
         done.add(sig)
-        small, swhat = _shrink(hist, sig)
-        res.violation(sig, swhat or what, {"kind": "H", "history": list(small), "found_in": list(hist)})
+        small, swhat = _shrink(hist, sig, reuse)
+        if reuse and any(f[0] == "hist" and f[1] == sig for f in _play(small)[1]):
+            reuse_needed = False
+        else:
+            reuse_needed = reuse
+        res.violation(sig + ("/reused-decorator-object" if reuse_needed else ""), swhat or what, {"kind": "H", "history": list(small), "found_in": list(hist), "reuse": reuse})
 
 
 def histories(first, maxlen):
@@ -682,6 +696,8 @@ def run_unit(unit, tier, res):
     if kind == "H":
         for h in histories(a, HLEN[tier]):
             run_history(h, res)
+            if len(h) > 1:
+                run_history(h, res, reuse=True)
         if len(res.samples) < 3:
             res.samples.append({"history": [a] + MOVES[:2], "moves": MOVES})
         return
@@ -717,7 +733,7 @@ def run_unit(unit, tier, res):
 
 def replay(case, tier, res):
     if case.get("kind") == "H":
-        run_history(tuple(case["history"]), res)
+        run_history(tuple(case["history"]), res, reuse=bool(case.get("reuse")))
     else:
         run_spec(dict(case["spec"]), res)
 
@@ -740,7 +756,7 @@ def meta(tier):
         "everything else to %d, with NO reduction of the per-field choices at 4-5 fields; "
         "each spec is loaded as module o (plain) and module s (slotted) and judged by refmodel.slotmodel "
         "(7 instances per world: pos A, A', B, C; kw A; omit A, A'; 2 copy targets x {copy, deepcopy, pickle 2..5}). "
-        "histories: every sequence of length 1..%d over %d moves (%s) = %d histories, each replayed from cold, last step judged by the "
+        "histories: every sequence of length 1..%d over %d moves (%s) = %d histories (each also with ONE configured decorator object per flag combination reused by its steps), each replayed from cold, last step judged by the "
         "reduced model (construct, repr, eq, __slots__) and against the same decoration alone. states = distinct contents of classes._stack; "
         "non-trivial = the decoration returned a class"
         % (nf, list(BASES), list(HOOKS), REDECL_DEFAULT, NESTED_MAXF, list(NESTED_BASES), n_specs, n_redecl, n_chain, n_nested, MAXF_EXTRA[tier], nf, HLEN[tier], len(MOVES), ",".join(MOVES), n_hist),
